@@ -164,6 +164,10 @@ func init() {
 		}
 		panic(engineFault{"IteI"})
 	})
+	intrinsics[vpPath+".IteU8"] = intrinsics[vpPath+".IteI"]
+	intrinsics[vpPath+".IteI8"] = intrinsics[vpPath+".IteI"]
+	intrinsics[vpPath+".IteB"] = intrinsics[vpPath+".IteI"]
+	vp("RealMode", func(m *Machine, fr *frame, a []value) value { return m.mode == ModeReal })
 	vp("Param", func(m *Machine, fr *frame, a []value) value {
 		v, ok := m.h.Params[a[0].(string)]
 		if !ok {
